@@ -382,8 +382,9 @@ def make_inline_cell_conflict(base_cells, local_diff, remote_diff):
     lkeep = max(0, lremove - rremove)
     rkeep = max(0, rremove - lremove)
 
-    lcells = local_diff[0].valuelist + base_cells[start : start + lkeep]
-    rcells = remote_diff[0].valuelist + base_cells[start : start + rkeep]
+    # Copy the base cells that are kept: the result must not alias the base notebook
+    lcells = local_diff[0].valuelist + copy.deepcopy(base_cells[start : start + lkeep])
+    rcells = remote_diff[0].valuelist + copy.deepcopy(base_cells[start : start + rkeep])
 
     cells = []
     cells.append(cell_marker("%s %s" % (m0, local_title)))
